@@ -501,9 +501,30 @@ pub fn heal(w: &mut World, ctx: &mut Ctx, liveness: bool, hook: StepHook) -> Res
 /// C09 quiescence: after everything was received, acknowledgements settle within a few ticks and,
 /// 3 s later, every channel offers its whole budget and accounts nothing on the receive side.
 pub fn quiescence(w: &mut World, ctx: &mut Ctx, hook: StepHook, memory: bool) -> Outcome {
-    // let acknowledgements settle
+    // let acknowledgements settle: everything the senders still hold unacknowledged (acknowledgements lost in the fault phase, or
+    // ignored because a tick longer than 3 s dropped the sent-packet record first) has to be sent once more and acknowledged,
+    // at the rate the tick budget allows - the same bound as for the heal phase
+    let mut units = 0usize;
+    for ds in w.dirs.iter() {
+        if !w.conn_alive(ds.dir.client) {
+            continue;
+        }
+        if let Some(s) = w.sender(ds.dir) {
+            let mut u = 0usize;
+            for (id, cm) in ds.chans.iter() {
+                if cm.cfg.kind.reliable() {
+                    for m in s.verif_unacked(*id).unwrap_or_default() {
+                        u += if m.acked_slices.is_empty() { 1 } else { m.acked_slices.iter().filter(|a| !**a).count() };
+                    }
+                }
+            }
+            units = units.max(u);
+        }
+    }
+    let per_tick = ((w.cfg.bytes_per_tick / SLICE as u64) as usize).max(1);
+    let settle_ticks = 12 + 4 * units.div_ceil(per_tick);
     let mut settled = false;
-    for _ in 0..12 {
+    for _ in 0..settle_ticks {
         let mut all = true;
         for ds in w.dirs.iter() {
             let d = ds.dir;
@@ -527,7 +548,7 @@ pub fn quiescence(w: &mut World, ctx: &mut Ctx, hook: StepHook, memory: bool) ->
     if !settled {
         return Err(Fail::new(
             "not_released",
-            "all reliable messages were obtained and acknowledgements flowed without faults for 12 ticks, but the sender still holds unacknowledged messages",
+            format!("all reliable messages were obtained and acknowledgements flowed without faults for {settle_ticks} ticks ({units} units were unacknowledged, {per_tick} fit a tick), but the sender still holds unacknowledged messages"),
         ));
     }
     if !memory {
